@@ -25,7 +25,7 @@ ASSUMPTIONS = [
     "PYTHONHASHSEED is fixed (0) in both the sequence process and the fresh baseline process",
     "for compiled ACLs only result equality under reuse is required (matching overwrites their scratch 'match' field)",
 ]
-FLOORS = {"quick": {"jobs_in_sequences": 60, "fresh_baselines": 30, "snapshots_compared": 180, "repeated_jobs": 6, "same_vendor_other_hw": 6, "acl_jobs": 6, "rule_mutating_logic_jobs": 4, "nested_dropped_row_jobs": 8, "reference_tracker_jobs": 6, "shared_compiled_acl_jobs": 36},
+FLOORS = {"quick": {"jobs_in_sequences": 60, "fresh_baselines": 30, "snapshots_compared": 180, "repeated_jobs": 6, "same_vendor_other_hw": 6, "acl_jobs": 6, "rule_mutating_logic_jobs": 4, "nested_dropped_row_jobs": 8, "reference_tracker_jobs": 6, "shared_compiled_acl_jobs": 36, "overlay_provider_jobs": 30},
           "thorough": {"jobs_in_sequences": 2500, "fresh_baselines": 400, "snapshots_compared": 7500, "repeated_jobs": 200, "same_vendor_other_hw": 200, "acl_jobs": 200}}
 NPROC = {"quick": 8, "thorough": 16}
 FAMILIES = {"huawei": ["Huawei", "Huawei CE6870", "Huawei NE40E-X8", "Huawei Quidway S5300"], "huawei ce": ["Huawei CE0000", "Huawei NE40E-X8", "Huawei Quidway S5700"],
@@ -73,6 +73,18 @@ ACL_PAIRS += [
      {"kind": "hand", "model": "Cisco Catalyst 2960", "old": "logging host 10.0.0.1\n", "new": "", "acl": "logging ~ %cant_delete=1\nlogging host ~\n"}],
     [{"kind": "hand", "model": "Arista", "old": "no ntp authenticate\nntp server 10.0.0.1\n", "new": "ntp server 10.0.0.1\n", "acl": "ntp ~ %cant_delete=1\nntp server ~\n"},
      {"kind": "hand", "model": "Arista", "old": "ntp server 10.0.0.1\n", "new": "", "acl": "ntp ~ %cant_delete=1\nntp server ~\n"}],
+]
+# vendor logic that parses VLAN lists: job A keeps one list line and adds a continuation line, job B (another port, same list
+# text) grows the list in place; a parse result cached and then updated in place by A would make B lose its addition
+VLAN_PAIRS = [
+    [{"kind": "hand", "model": m, "old": "interface %s1\n switchport trunk allowed vlan 10,20\n" % ifn,
+      "new": "interface %s1\n switchport trunk allowed vlan 10,20\n switchport trunk allowed vlan add 30\n" % ifn},
+     {"kind": "hand", "model": m, "old": "interface %s2\n switchport trunk allowed vlan 10,20\n" % ifn, "new": "interface %s2\n switchport trunk allowed vlan 10,20,30\n" % ifn}]
+    for m, ifn in (("Cisco Catalyst 2960", "GigabitEthernet0/"), ("Cisco Nexus", "Ethernet1/"))
+] + [
+    [{"kind": "hand", "model": "Huawei CE6870", "old": "interface 10GE1/0/1\n port trunk allow-pass vlan 10 20\n",
+      "new": "interface 10GE1/0/1\n port trunk allow-pass vlan 10 20\n port trunk allow-pass vlan 30\n"},
+     {"kind": "hand", "model": "Huawei CE6870", "old": "interface 10GE1/0/2\n port trunk allow-pass vlan 10 20\n", "new": "interface 10GE1/0/2\n port trunk allow-pass vlan 10 20 30\n"}]
 ]
 # jobs run with a reference tracker (the configs of a referring and a defining generator order the patch) followed by a job of
 # the same hardware without one, whose rows occur in those configs
@@ -182,7 +194,11 @@ def plan(tier, seed):
             at = rng.randrange(len(seq) + 1)
             seq[at:at] = [dict(pb[0]), dict(pb[1])]
         seq += [dict(pr[0]), dict(pr[1])]
+        pv = rng.choice(VLAN_PAIRS)
+        at = rng.randrange(len(seq) + 1)
+        seq[at:at] = [dict(pv[0]), dict(pv[1])]
         specs.append({"mode": "seq", "tier": tier, "seed": seed, "seq": seq})
+    specs.append({"mode": "overlay", "tier": tier, "seed": seed})
     return specs
 
 
@@ -294,6 +310,54 @@ def first_difference(a, b):
     return None
 
 
+def run_overlay(spec, acc):
+    """a provider with two rulebook directories (a site overlay that overrides one vendor's .rul in front of the stock directory):
+    which file serves a vendor must not depend on which vendors the provider served before"""
+    import shutil
+    import tempfile
+    from annet.annlib.netdev.views.hardware import HardwareView
+    from annet.api import _diff_and_patch
+    from annet.rulebook import DefaultRulebookProvider
+    from annet import tabparser
+    from annet.vendors import registry_connector
+    from vf.props import c18
+    stock = DefaultRulebookProvider.root_dir[0]
+    d = tempfile.mkdtemp(prefix="vf_c20_overlay_")
+    try:
+        os.makedirs(os.path.join(d, "texts"))
+        for name, first_rule in (("huawei.rul", "sysname *"), ("cisco.rul", "hostname *")):
+            with open(os.path.join(stock, "texts", name)) as f:
+                text = f.read()
+            with open(os.path.join(d, "texts", name), "w") as f:
+                f.write(first_rule + "\n" + text)  # the overlay's rule keys the host name: a rename becomes remove + add
+        jobs = {"H": ("Huawei CE6870", "sysname a\n", "sysname b\n"), "C": ("Cisco Catalyst 2960", "hostname a\n", "hostname b\n"),
+                "A": ("Arista", "hostname a\n", "hostname b\n"), "N": ("Huawei NE40E-X8", "sysname a\n", "sysname b\n")}
+
+        def run(provider, j):
+            model, ot, nt = jobs[j]
+            hw = HardwareView(model, "")
+            fmt = registry_connector.get().match(hw).make_formatter()
+            rb = provider.get_rulebook(hw)
+            _, patch = _diff_and_patch(c01.Dev(hw), tabparser.parse_to_tree(ot, fmt.split), tabparser.parse_to_tree(nt, fmt.split), None, None, False, rb=rb)
+            return {"cmds": [list(p) for p in fmt.cmd_paths(patch)], "sig": c18.R_hash(c18.rb_signature(rb))}
+        base = {j: run(DefaultRulebookProvider(root_dir=(d, stock)), j) for j in jobs}
+        rng = random.Random("C20/overlay/%s" % spec["seed"])
+        for k in range(12 if spec["tier"] == "quick" else 200):
+            order = [rng.choice("HCAN") for _ in range(rng.randint(2, 5))]
+            prov = DefaultRulebookProvider(root_dir=(d, stock))
+            for pos, j in enumerate(order):
+                got = run(prov, j)
+                acc.count("overlay_provider_jobs")
+                acc.case(["overlay", order[:pos + 1]], nontrivial=pos >= 1)
+                if got != base[j]:
+                    acc.violation("C20/result-depends-on-history", "a job gives a different result after other jobs in the same process than alone in a fresh process",
+                                  {"overlay": True, "order": order[:pos + 1], "job": list(jobs[j]), "in_sequence": got["cmds"], "fresh": base[j]["cmds"],
+                                   "differs_in": "cmds" if got["cmds"] != base[j]["cmds"] else "compiled rulebook"})
+                    return
+    finally:
+        shutil.rmtree(d, ignore_errors=True)
+
+
 def run_seq(spec, acc):
     from annet import rulebook
     from vf.props import c18
@@ -369,6 +433,8 @@ def run_seq(spec, acc):
 
 
 def run_shard(spec, acc):
+    if spec["mode"] == "overlay" or (spec["mode"] == "replay" and spec["witness"].get("overlay")):
+        return run_overlay({"tier": spec.get("tier", "quick"), "seed": spec.get("seed", 0)}, acc)
     if spec["mode"] == "replay":
         w = spec["witness"]
         run_seq({"seq": w["seq"]}, acc)
